@@ -23,9 +23,11 @@ RULE = ("generated csv-raw files (2-6 columns, label at any position, 30-3300 da
         "outrank_task_conduct_ranking (args from the repository's parser, serial pool object) and through e2e_run evaluated by "
         "vm_compute on the same text; non-trivial = at least one batch is processed and (two or more batches, or a malformed "
         "selected line, or a quoted cell, or a tail decision within 2 rows of 1024); distinct = distinct (text, config)")
-THEOREMS = ["E2E_spec", "E2E_spec_constant", "E2E_requested_pairs", "E2E_batches", "E2E_batch_score_exact",
-            "E2E_batch_split_scores", "E2E_wellformed_file", "E2E_wellformed_run", "E2E_no_csv_error",
-            "E2E_deterministic", "E2E_shuffle_sampler_independent", "E2E_cap_nonbinding", "E2E_text_run"]
+THEOREMS = ["E2E_spec", "E2E_spec_constant", "E2E_requested_pairs", "E2E_batches", "E2E_loop", "E2E_batch_rows",
+            "E2E_batch_score_exact", "E2E_max_cov_unique", "E2E_max_cov_symmetric", "E2E_batch_split_scores",
+            "E2E_median_replicate", "E2E_maxfreq_fast", "E2E_text_run", "E2E_no_csv_error", "E2E_wellformed_file",
+            "E2E_wellformed_run", "E2E_cap_nonbinding", "E2E_shuffle_sampler_independent", "E2E_deterministic",
+            "E2E_examples"]
 TOL = 1e-15
 COQ_MEM_KB = 2 * 1024 * 1024          # address-space cap per coqc evaluating cases
 HEADER = ("From Coq Require Import List NArith ZArith QArith.\nFrom Outrank Require Import E2E.Compose.\n"
@@ -149,6 +151,7 @@ def gen_case(rng, family):
         nlines = rng.randint(30, 400)
         B = rng.choice([5, 7, 16, 50, 128])
     if family in ("small", "medium"):
+        B = min(B, max(1, nlines // (s * rng.choice([1, 2, 3, 8]))))   # at least one batch (up to malformed lines)
         B = max(B, -(-nlines // (s * 60)))          # at most ~60 batches (cost of the aggregation in Coq)
     if family == "tail":
         names = names[:ncols]
@@ -539,7 +542,7 @@ def check(run, replay):
     else:
         cases = load_corpus()
         if run.tier == "quick":
-            fams = ["tail"] * 5 + ["medium"] * 8 + ["small"] * 24 + ["none"] * 3
+            fams = ["tail"] * 9 + ["medium"] * 16 + ["small"] * 60 + ["none"] * 5
         else:
             fams = ["tail"] * 36 + ["medium"] * 70 + ["small"] * 180 + ["none"] * 14
         for fam in fams:
